@@ -570,6 +570,9 @@ def r0_config(ctx):
         expect("inherits-self-kept", base + [(Fd("Extensions"), L(T(S("fr"), S("fr"))))], is_ok(extensions=L(T(S("fr"), S("fr")))), "Ok with the entry kept")
         expect("inherits-unknown-target", base + [(Fd("Extensions"), L(T(S("fr"), S("it"))))], is_err("custom"), "Err: unknown locale")
         expect("inherits-unknown-source", base + [(Fd("Extensions"), L(T(S("it"), S("fr"))))], is_err("custom"), "Err: unknown locale")
+        expect("inherits-unknown-source-to-default", base + [(Fd("Extensions"), L(T(S("it"), S("en"))))], is_err("custom"), "Err: unknown locale (the entry names the default as its target)")
+        expect("inherits-unknown-source-to-unlisted-default", [(Fd("Default"), S("en")), (Fd("Locales"), L(S("fr"))), (Fd("Extensions"), L(T(S("it"), S("en"))))], is_err("custom"), "Err: unknown locale")
+        expect("inherits-second-entry-unknown", base + [(Fd("Extensions"), L(T(S("fr"), S("en")), T(S("it"), S("fr"))))], is_err("custom"), "Err: unknown locale in the second entry")
         expect("inherits-default", base + [(Fd("Extensions"), L(T(S("en"), S("fr"))))], is_err("custom"), "Err: the default locale cannot inherit")
         expect("inherits-default-unlisted-source", [(Fd("Default"), S("en")), (Fd("Locales"), L(S("fr"))), (Fd("Extensions"), L(T(S("en"), S("fr"))))], is_err("custom"), "Err: the default locale cannot inherit")
     except absint.Unknown as u:
